@@ -200,7 +200,7 @@ OnErr(s, e0) ==
                       "a key is reported unknown although it is known, not denied, or already reported")
             ELSE IF F.ph = "bad" THEN Flag(s1, {"C04"} \cup tagprops \cup scalarprops \cup (IF N.c \in {"arr", "tup"} THEN {"C06"} ELSE {}),
                                            "the report made for a faulty value is of the wrong kind")
-            ELSE Flag(s1, {"C02", "C04"} \cup (IF N.c \in {"enum", "uenum"} THEN {"C10"} ELSE {}), "a report is made that no fault of the payload explains")
+            ELSE Flag(s1, {"C02", "C04"} \cup (IF N.c \in {"enum", "uenum"} THEN {"C10"} ELSE {}) \cup scalarprops, "a report is made that no fault of the payload explains")
 
 OnMrg(s, e) ==
     IF s.phase # "running" \/ Len(s.stack) = 0 THEN Flag(s, {"CONF"}, "merge outside a running call")
@@ -263,7 +263,9 @@ OnCall(s, e) ==
             Seen([s1 EXCEPT !.stack = AfterCall(s.stack, c)], kprops(c) \cup {"C11"})
        ELSE IF cands # {} THEN
             LET c == CHOOSE x \in cands : TRUE IN
-            Flag(s1, kprops(c) \cup (IF c.argk = "validate" \/ c.k \in {"missing", "deny"} THEN {"C04"} ELSE {}),
+            Flag(s1, kprops(c) \cup (IF c.argk = "validate" \/ c.k \in {"missing", "deny"} THEN {"C04"} ELSE {})
+                         \* `map` on top of a default: the field's key is absent, what it must receive is the default (C08)
+                         \cup (IF c.argk = "map" /\ F.val.t = "map" /\ ~\E j \in 1..Len(F.val.e) : RouteK(N, F.vi, F.fkeys, F.val.e[j].k) = c.fi THEN {"C08"} ELSE {}),
                  "a user function does not receive the value (key, accepted list, location) it must be called with")
        ELSE IF F.brk \/ F.ph = "fin" THEN Flag(s1, {"C03", "C11"}, "a user function is called after the error type answered stop or after a failure")
        ELSE \* the function is not due now: twice, on a bad value, before its turn, for a present / known key ...
@@ -352,7 +354,12 @@ OnDone(s, e) ==
         faults == Faults(s.cur.ty, s.cur.val, <<>>, s.cur.pk, s.fnf)
     IN IF s.cur.allc
        THEN (IF SameBag(s.reps \o s.waived, faults) THEN Seen(s1, {"C02", "C08", "C09", "C10"})
-             ELSE Flag(s1, {"C02"}, "the keep-going run does not report exactly the independent faults of the payload"))
+             ELSE LET got == s.reps \o s.waived
+                      diff == {got[j] : j \in {k \in 1..Len(got) : Count(got, got[k]) # Count(faults, got[k])}}
+                              \cup {faults[j] : j \in {k \in 1..Len(faults) : Count(got, faults[k]) # Count(faults, faults[k])}}
+                      kp(d) == CASE d.k = "missing" -> {"C08"} [] d.k = "unknownkey" -> {"C09"} [] d.k = "unknownvalue" -> {"C10"}
+                                 [] d.k = "badlen" -> {"C06"} [] d.k = "fn" -> {"C11"} [] OTHER -> {}
+                  IN Flag(s1, {"C02"} \cup UNION {kp(d) : d \in diff}, "the keep-going run does not report exactly the independent faults of the payload"))
        ELSE s1
 
 \* What is still recorded once a run has been charged with a deviation: the reports it makes (for the comparisons
